@@ -30,7 +30,7 @@ func init() {
 		Quick: 300000, Thorough: 20000000,
 		Run:        runC02,
 		Rule:       "one run = one generated target type, an initial target state (zero or pre-populated: non-nil maps, slices, pointers, pointers to pointers, interface fields holding pointers) and a history of 2..8 decodes into the same target through Unmarshal / Parse(b,x,0) / Decoder.Decode with each subset of {UseNumber, DisallowUnknownFields}, mirrored step by step on encoding/json with an isomorphic target; documents are encoding/json's own encoding of fresh values of the type, mutated at the value-tree level (always syntactically valid JSON). non-trivial = at least one decode after the first hit a target that already held data (a non-empty prior state); distinct = distinct hash of (type, initial state, documents, entry points)",
-		FaultKinds: []string{"prior-state:prepopulated", "prior-state:left-by-earlier-decode", "prior-state:after-failed-decode(rebuilt)", "doc:null-subvalue", "doc:key-dropped", "doc:unknown-key", "doc:duplicate-key", "doc:key-case-changed", "doc:array-shortened", "doc:array-lengthened", "doc:kind-swapped", "doc:integer-boundary", "doc:quoted-literal", "doc:top-level-empty", "entry:Unmarshal", "entry:Parse", "entry:Decoder", "entry:Decoder+UseNumber", "entry:Decoder+DisallowUnknownFields", "entry:Decoder-stream(one Decoder, successive values into one target)"},
+		FaultKinds: []string{"prior-state:prepopulated", "prior-state:left-by-earlier-decode", "prior-state:after-failed-decode(rebuilt)", "doc:null-subvalue", "doc:key-dropped", "doc:unknown-key", "doc:duplicate-key", "doc:key-case-changed", "doc:array-shortened", "doc:array-lengthened", "doc:kind-swapped", "doc:integer-boundary", "doc:quoted-literal", "doc:top-level-empty", "entry:Unmarshal", "entry:Parse", "entry:Decoder", "entry:Decoder+UseNumber", "entry:Decoder+DisallowUnknownFields", "entry:Decoder-stream(one Decoder, successive values into one target)", "stream-document-straddles-first-buffer-fill"},
 		ProbeNames: []string{"steps", "steps-both-ok", "steps-both-failed", "map-merged-into-non-empty", "slice-reused-with-capacity", "pointer-reused", "interface-held-pointer-present", "input-dimension-divergence-on-fresh-target(skipped, not claimed)"},
 		Real:       []string{"json.Unmarshal, json.Parse, json.Decoder and the whole decode path compiled from /repo's working tree with sync and sync/atomic redirected to the shim (deterministic simulated sync.Pool, pristine library state before every run)"},
 		Model:      []string{"reference model: encoding/json of the toolchain applied to an isomorphic target, step by step"},
@@ -402,6 +402,8 @@ type c02Scenario struct {
 	// (entry 2..5 of the first step gives the flags) over the concatenated
 	// documents: the history lives inside a single Decoder.
 	Stream bool `json:"stream,omitempty"`
+	// Pad: spaces in front of a stream (a document then straddles a buffer fill).
+	Pad int `json:"pad,omitempty"`
 	// Preset names a hand-built initial state (literal witnesses): "iface-ptr-int"
 	// = a C02Rich whose I holds a *int and whose IP points to an interface
 	// holding a *int.
@@ -554,6 +556,21 @@ func c02GenScenario(r *core.Run) *c02Scenario {
 		for i := range sc.Steps {
 			sc.Steps[i].Entry = e
 		}
+		if t.Chance(1, 3) {
+			// leading whitespace that makes one of the documents straddle the
+			// Decoder's first buffer fill (32 KiB)
+			k := t.Intn(len(sc.Steps))
+			off := 0
+			for i := 0; i < k; i++ {
+				off += len(sc.Steps[i].Doc) + 1
+			}
+			if n := len(sc.Steps[k].Doc); n > 1 && off < 32768 {
+				sc.Pad = 32768 - off - 1 - t.Intn(n-1)
+				if sc.Pad < 0 {
+					sc.Pad = 0
+				}
+			}
+		}
 	}
 	return sc
 }
@@ -702,6 +719,10 @@ func runC02(r *core.Run) {
 // decoding every value into the same target.
 func c02RunStream(r *core.Run, sc *c02Scenario, rt reflect.Type, seg, std reflect.Value) {
 	var stream []byte
+	if sc.Pad > 0 {
+		stream = bytes.Repeat([]byte{' '}, sc.Pad)
+		r.Fault("stream-document-straddles-first-buffer-fill")
+	}
 	for _, s := range sc.Steps {
 		stream = append(stream, s.Doc...)
 		stream = append(stream, '\n')
